@@ -182,6 +182,10 @@ type Host struct {
 	MaxTop            int
 	TrackLimits       bool
 	NilDerefNormalize bool
+	// Entry selects the Go-side protected entry point RunProto uses (0 PCall MultRet, 1 PCall NRet 0, 2 PCall NRet 2,
+	// 3 CallByParam NRet 1, 4 CallByParam with a Go handler, 5 PCall with a Go handler); EntryJunk values are pushed first.
+	Entry     int
+	EntryJunk int
 	// ExtraStep, when set, is called at every instruction boundary after the harness's own bookkeeping (scheduler pre-emption point).
 	ExtraStep func(L *lua.LState)
 }
@@ -531,8 +535,44 @@ func (h *Host) RunProto(p *lua.FunctionProto) (out Outcome) {
 			out.Escaped = fmt.Sprintf("%v\n%s", r, trimStack(string(debug.Stack())))
 		}
 	}()
-	L.Push(L.NewFunctionFromProto(p))
-	err := L.PCall(0, lua.MultRet, nil)
+	fn := L.NewFunctionFromProto(p)
+	// junk below the call: a protected call must not disturb what the caller had on the stack
+	for i := 0; i < h.EntryJunk; i++ {
+		L.Push(lua.LNumber(5000 + i))
+	}
+	top = L.GetTop()
+	var err error
+	wantOK := top
+	switch h.Entry {
+	case 1:
+		L.Push(fn)
+		err = L.PCall(0, 0, nil)
+	case 2:
+		L.Push(fn)
+		err = L.PCall(0, 2, nil)
+		wantOK = top + 2
+	case 3:
+		err = L.CallByParam(lua.P{Fn: fn, NRet: 1, Protect: true})
+		wantOK = top + 1
+	case 4:
+		// a Go message handler that hands the error value through
+		err = L.CallByParam(lua.P{Fn: fn, NRet: lua.MultRet, Protect: true, Handler: L.NewFunction(func(L *lua.LState) int { return 1 })})
+	case 5:
+		L.Push(fn)
+		err = L.PCall(0, lua.MultRet, L.NewFunction(func(L *lua.LState) int { return 1 }))
+	default:
+		L.Push(fn)
+		err = L.PCall(0, lua.MultRet, nil)
+	}
+	if err == nil && L.GetTop() != wantOK {
+		h.Violations = append(h.Violations, fmt.Sprintf("gopcall-stack: after a successful top-level protected call (entry style %d) GetTop()=%d, want %d", h.Entry, L.GetTop(), wantOK))
+	}
+	for i := 0; i < h.EntryJunk; i++ {
+		if v, ok := L.Get(top - h.EntryJunk + 1 + i).(lua.LNumber); !ok || int(v) != 5000+i {
+			h.Violations = append(h.Violations, fmt.Sprintf("gopcall-stack: the caller's value at stack index %d was disturbed by the protected call (now %v)", top-h.EntryJunk+1+i, L.Get(top-h.EntryJunk+1+i)))
+			break
+		}
+	}
 	if err != nil {
 		out.RawError = err.Error()
 		if ae, ok := err.(*lua.ApiError); ok && ae.Object != nil && ae.Object != lua.LNil {
@@ -559,7 +599,7 @@ func (h *Host) RunProto(p *lua.FunctionProto) (out Outcome) {
 	if lua.VerifHasCurrentFrame(L) {
 		h.Violations = append(h.Violations, "structure-not-restored: currentFrame still set after the top-level PCall returned")
 	}
-	L.SetTop(top)
+	L.SetTop(top - h.EntryJunk)
 	return out
 }
 
